@@ -84,6 +84,34 @@ func skolemsOf(t *Term) []*Term {
 			out = append(out, v)
 		}
 	}
+	// index terms of array reads in the goal (e.g. constant indices into a callee's result) are instantiation points
+	seenIdx := map[uint64]bool{}
+	var walk func(x *Term)
+	visited := map[uint64]bool{}
+	walk = func(x *Term) {
+		if visited[x.ID()] || len(out) > 60 {
+			return
+		}
+		visited[x.ID()] = true
+		if x.Op == "select" && x.Args[1].S.K == KBV && x.Args[1].S.W == 64 && !seenIdx[x.Args[1].ID()] && x.Args[1].Size() < 12 {
+			seenIdx[x.Args[1].ID()] = true
+			out = append(out, x.Args[1])
+		}
+		for _, a := range x.Args {
+			walk(a)
+		}
+	}
+	walk(t)
+	// loop-carried integer variables (havoc'd header phis, named <ssa>@<source name>!n) are instantiation points too
+	for _, v := range vs {
+		if v.S.K == KBV && v.S.W >= 8 && strings.Contains(v.Name, "@") && !strings.Contains(v.Name, ".") && !strings.Contains(v.Name, "[") {
+			if v.S.W == 64 {
+				out = append(out, v)
+			} else {
+				out = append(out, ZExt(64, v))
+			}
+		}
+	}
 	return out
 }
 
@@ -268,6 +296,7 @@ type FnExec struct {
 	// SpecOpaque: during evaluation of a spec function, calls for which it returns true are not unfolded but
 	// become applications of uninterpreted functions.
 	SpecOpaque func(f *ssa.Function, depth int) bool
+	OnOpaque   func(f *ssa.Function, args []Value, res Value)
 }
 
 func (cx *Ctx) NewFnExec(fn *ssa.Function) *FnExec {
@@ -536,7 +565,7 @@ func (fx *FnExec) constVal(c *ssa.Const) Value {
 			return Scalar{BVC(w, v)}
 		}
 	}
-	return Opaque{"const:" + c.String(), t}
+	return Opaque{Name: "const:" + c.String(), T: t}
 }
 
 func StrLit(s string) StrV {
@@ -1438,10 +1467,10 @@ func (fx *FnExec) ConvertV(st *State, v Value, from, to types.Type) Value {
 		}
 	}
 	if _, ok := v.(Opaque); ok {
-		return Opaque{"convert", to}
+		return Opaque{Name: "convert", T: to}
 	}
 	if b, ok := to.Underlying().(*types.Basic); ok && b.Info()&types.IsFloat != 0 {
-		return Opaque{"float", to}
+		return Opaque{Name: "float", T: to}
 	}
 	panic(Unsupported{fmt.Sprintf("convert %s -> %s (%T)", from, to, v)})
 }
@@ -1482,7 +1511,7 @@ func (fx *FnExec) typeAssert(fr *Frame, st *State, x *ssa.TypeAssert) Value {
 	case ErrV:
 		if x.CommaOk {
 			fx.Cx.Note("type assertion on error value: result abstracted")
-			return TupleV{[]Value{Opaque{"errassert", x.AssertedType}, Scalar{fx.Cx.Fresh("assertok", Bool)}}}
+			return TupleV{[]Value{Opaque{Name: "errassert", T: x.AssertedType}, Scalar{fx.Cx.Fresh("assertok", Bool)}}}
 		}
 	}
 	panic(Unsupported{fmt.Sprintf("type assert on %T", v)})
@@ -1525,7 +1554,7 @@ func (fx *FnExec) doCall(fr *Frame, c *ssa.Call, st *State, k func(*State, Value
 		}
 	}
 	if fx.InitMode {
-		cont(st, Opaque{"call", nil})
+		cont(st, Opaque{Name: "call", T: nil})
 		return
 	}
 	panic(Unsupported{"dynamic call: " + c.String()})
@@ -1569,7 +1598,11 @@ func (fx *FnExec) callFunc(fr *Frame, c *ssa.Call, f *ssa.Function, args []Value
 		return
 	}
 	if fx.SpecOpaque != nil && fx.SpecOpaque(f, fr.Depth+1) {
-		k(st, fx.OpaqueApply(f, args))
+		res := fx.OpaqueApplySt(st, f, args)
+		if fx.OnOpaque != nil {
+			fx.OnOpaque(f, args, res)
+		}
+		k(st, res)
 		return
 	}
 	if f.Blocks != nil && (fx.SpecOpaque != nil || fx.Cx.Inline == nil || fx.Cx.Inline(fx.Fn, f)) {
@@ -1612,7 +1645,7 @@ func (fx *FnExec) callFunc(fr *Frame, c *ssa.Call, f *ssa.Function, args []Value
 func safeZero(cx *Ctx, t types.Type) (v Value) {
 	defer func() {
 		if r := recover(); r != nil {
-			v = Opaque{"zero", t}
+			v = Opaque{Name: "zero", T: t}
 		}
 	}()
 	return cx.Zero(t)
